@@ -201,7 +201,7 @@ def run(cx: Cx):
     for p in cx.walker.paths(fn, WalkOptions(unroll=0, callee_raises=False)):
         if p.end == 'raise' and p.last.data.get('direct') and p.last.data.get('exc') == 'AttributeError':
             if compare(p.cond, f_not(valid)) is None or compare(p.cond, f_not(valid2)) is None:
-                if not [e for e in p.events if e.kind == 'call' and e.data.get('target_kind') in ('pkg', 'unknown')]:
+                if not [e for e in p.events if e.kind == 'call' and e.data.get('target_kind') in ('pkg', 'unknown') and not e.data.get('full_inline')]:
                     found = True
     if found:
         cx.ok('R-GUARD', 'collectors must be None / str / Iterable, rejected before any work', where=cx.where(fn), function=fn.qualname)
